@@ -369,6 +369,9 @@ func (p *probeRT) serverAddr() string {
 	if p.p.Transport == "udp" {
 		port = s.UDPPort
 	}
+	if p.p.Port != 0 {
+		port = p.p.Port
+	}
 	return net.JoinHostPort(s.IP, fmt.Sprint(port))
 }
 
